@@ -368,7 +368,7 @@ pub fn run(tier: &str) -> Result<Report, String> {
     let mut rep = Report::new("C16", tier, "exploration");
     let nets = core_nets(0)?;
     let which = ["tog2", "con2", "unf2", "inp2", "zer2", "shr3"];
-    let ks: Vec<u16> = if tier == "quick" { vec![0, 2] } else { vec![0, 1, 2, 3] };
+    let ks: Vec<u16> = vec![0, 1, 2, 3];
     let formula_lists: Vec<Vec<String>> = vec![
         vec![],
         vec!["!{x}: AG EF {x}".into()],
@@ -378,7 +378,7 @@ pub fn run(tier: &str) -> Result<Report, String> {
     let mut cases: Vec<(Arc<Bound>, Case)> = vec![];
     let mut not_applicable = 0u64;
     for b in nets.iter().filter(|b| which.contains(&b.name.as_str())) {
-        let fams = label_families(b, if tier == "quick" { 4 } else { 8 });
+        let fams = label_families(b, 8);
         let unit: Vec<Mask> = vec![crate::bridge::full_mask(b.n); b.cols.len()];
         let empty: Vec<Mask> = vec![0; b.cols.len()];
         let fam_sets: Vec<Vec<Mask>> = fams.iter().flat_map(|(_, l)| vec![l.wild[0].clone(), l.dom[0].clone(), l.dom[1].clone()]).collect();
@@ -407,12 +407,9 @@ pub fn run(tier: &str) -> Result<Report, String> {
             for &k in &ks {
                 for (mi, m) in maps.iter().enumerate() {
                     for (fi, fl) in formula_lists.iter().enumerate() {
-                        if tier == "quick" && (mi + fi) % 2 == 1 && mi != 3 {
-                            continue;
-                        }
                         cases.push((b.clone(), Case { net: b.name.clone(), fmt: fmt.to_string(), k, sets: m.clone(), formulas: fl.clone(), prior: 0 }));
                         // histories of the target path: the same write over an earlier archive / a non-zip file / an empty file
-                        if fmt == "aeon" && (tier != "quick" || k == ks[0]) {
+                        if fmt == "aeon" {
                             for prior in 1..=3u8 {
                                 cases.push((b.clone(), Case { net: b.name.clone(), fmt: fmt.to_string(), k, sets: m.clone(), formulas: fl.clone(), prior }));
                             }
